@@ -4,14 +4,18 @@ CONSTANTS
   MaxEvents = 10
   MaxPerBlock = 2
   MaxReorgs = 3
-  MaxRestarts = 1
+  MaxRestarts = 3
   MaxFail = 4
   ChunkSizes = {1, 2, 3, 10}
+  MaxWriteFail = 2
+  CatchUpWriteErrorFatal = TRUE
+  SwallowWriteError = FALSE
+  AnnounceBeforeWrite = FALSE
   FinalityAfterNotices = TRUE
 INIT TraceInit
 NEXT TraceNext
 VIEW traceview
 CONSTRAINT TraceProgress
-INVARIANTS TypeOK StoredFinalisedCanonical BufferSane ChainSane
+INVARIANTS TypeOK StoredFinalisedCanonical BufferSane ChainSane AnnouncedIsRecorded
 POSTCONDITION TraceAccepted
 CHECK_DEADLOCK FALSE
